@@ -118,8 +118,9 @@ def lit(v):
     return ('lit', v)
 
 class Interp:
-    def __init__(self, facts, body, summaries=None, unroll=1, inline=None, field_hook=None, for_once=False, result_combinators=False):
+    def __init__(self, facts, body, summaries=None, unroll=1, inline=None, field_hook=None, for_once=False, result_combinators=True, combinators=False):
         self.field_hook = field_hook
+        self.combinators = combinators    # model Option/Result::{unwrap_or*, ok_or*, map_or*} by cases
         self.result_combinators = result_combinators   # model Result::{map_err, ok, err} by cases instead of as opaque calls
         self.for_once = for_once      # `for` loops run exactly once over a generic element (shape extraction)
         self.facts = facts
@@ -162,7 +163,7 @@ class Interp:
         if rec is None or getattr(self, '_depth', 0) > 6:
             return None
         B = hirq.Body(self.facts, rec)
-        sub = Interp(self.facts, B, self.summaries, self.unroll, self.inline, self.field_hook, self.for_once, self.result_combinators)
+        sub = Interp(self.facts, B, self.summaries, self.unroll, self.inline, self.field_hook, self.for_once, self.result_combinators, self.combinators)
         sub._depth = getattr(self, '_depth', 0) + 1
         env = {}
         states = [St(env, st.heap, st.ev, st.pc, st.ctr)]
@@ -1220,7 +1221,7 @@ def builtin_summary(I, cal, args, node, st):
             # a cloned handle is a distinct object: stores to its fields must not alias the original
             return [Out('val', ('call', cal, tuple(args), node.get('id')), st.event(('call', cal, tuple(args), node)))]
         return [Out('val', args[0], st)]
-    if (is_opt or is_res) and name in ('expect', 'unwrap', 'unwrap_or_default') and args:
+    if (is_opt or is_res) and name in (('expect', 'unwrap') if I.combinators else ('expect', 'unwrap', 'unwrap_or_default')) and args:
         v = args[0]
         if v[0] == 'ctor' and v[1] in ('Some', 'Ok'):
             return [Out('val', v[2][0], st)]
@@ -1266,6 +1267,46 @@ def builtin_summary(I, cal, args, node, st):
                     outs.append(Out('val', ('ctor', good, (o.val,)), o.st))
                 else:
                     outs.append(o)
+        return outs
+    if I.combinators and (is_opt or is_res) and name in ('unwrap_or', 'unwrap_or_else', 'unwrap_or_default', 'ok_or', 'ok_or_else', 'map_or', 'map_or_else') and args:
+        good, bad = ('Some', 'None') if is_opt else ('Ok', 'Err')
+        v = args[0]
+        if v[0] == 'ctor' and v[1] in (good, bad):
+            cases = [(v[1], v[2][0] if v[2] else UNIT, st)]
+        else:
+            kt = st.variant_test(v, good, [good, bad])
+            cases = []
+            if kt != 'no':
+                cases.append((good, ('variant', v, good, 0), st if kt == 'yes' else st.assume(('is', v, good), True)))
+            if kt != 'yes':
+                cases.append((bad, ('variant', v, bad, 0) if not is_opt else UNIT, st if kt == 'no' else st.assume(('is', v, good), False)))
+        outs = []
+        for var, inner, s in cases:
+            if name in ('unwrap_or', 'unwrap_or_else', 'unwrap_or_default'):
+                if var == good:
+                    outs.append(Out('val', inner, s))
+                elif name == 'unwrap_or':
+                    outs.append(Out('val', args[1], s))
+                elif name == 'unwrap_or_else':
+                    outs.extend(I.apply(args[1], [] if is_opt else [inner], node, s))
+                else:
+                    ty = node.get('ty') or ''
+                    outs.append(Out('val', ('vec', ()) if ty.startswith('alloc::vec::Vec<') else (('lit', '') if ty in ('alloc::string::String', '&str') else ('default', ty)), s))
+            elif name in ('ok_or', 'ok_or_else'):
+                if var == good:
+                    outs.append(Out('val', ('ctor', 'Ok', (inner,)), s))
+                elif name == 'ok_or':
+                    outs.append(Out('val', ('ctor', 'Err', (args[1],)), s))
+                else:
+                    for o in I.apply(args[1], [], node, s):
+                        outs.append(Out('val', ('ctor', 'Err', (o.val,)), o.st) if o.kind == 'val' else o)
+            else:   # map_or(default, f) / map_or_else(default_fn, f)
+                if var == good:
+                    outs.extend(I.apply(args[2], [inner], node, s))
+                elif name == 'map_or':
+                    outs.append(Out('val', args[1], s))
+                else:
+                    outs.extend(I.apply(args[1], [] if is_opt else [inner], node, s))
         return outs
     if I.result_combinators and is_res and name in ('map_err', 'ok', 'err') and args and (name != 'map_err' or (len(args) == 2 and args[1][0] in ('closure', 'fn'))):
         v = args[0]
